@@ -93,6 +93,31 @@ class Ext:
             return True
         return self.eq(self.pow(a, (self.q - 1) // 2), self.one)
 
+    # -- norm to the subfield and the norm-based quadratic character (recursion down to Euler's criterion in Fp)
+    def norm(self, a):
+        """N_{F/K}(a) as an element of K: the product of the conjugates of a over K, written out for the binomial
+        X^d - nr (d = 2: a0^2 - nr a1^2; d = 3: a0^3 + nr a1^3 + nr^2 a2^3 - 3 nr a0 a1 a2)."""
+        K, nr = self.K, self.nr
+        if self.d == 2:
+            a0, a1 = a
+            return K.sub(K.mul(a0, a0), K.mul(nr, K.mul(a1, a1)))
+        a0, a1, a2 = a
+        c0 = K.mul(a0, K.mul(a0, a0))
+        c1 = K.mul(nr, K.mul(a1, K.mul(a1, a1)))
+        c2 = K.mul(K.mul(nr, nr), K.mul(a2, K.mul(a2, a2)))
+        m = K.mul(K.mul(nr, a0), K.mul(a1, a2))
+        return K.sub(K.add(K.add(c0, c1), c2), K.add(m, K.add(m, m)))
+
+    def is_square_norm(self, a):
+        """a is a square in F iff N_{F/K}(a) is a square in K (the norm maps F*/F*^2 onto K*/K*^2 bijectively for
+        finite fields of odd characteristic). Zero counts as a square."""
+        if self.is_zero(a):
+            return True
+        n = self.norm(a)
+        if isinstance(self.K, PrimeField):
+            return pow(n, (self.p - 1) // 2, self.p) == 1
+        return self.K.is_square_norm(n)
+
     def sqrt(self, a):
         """Any square root (generic Tonelli-Shanks in the multiplicative group) or None."""
         if self.is_zero(a):
@@ -195,6 +220,171 @@ def build_tower(p, qnr, cnr, E2, E3=None):
     return T
 
 
+# ---------------------------------------------------------------------------------------------------------------
+# Fast path: the same field as Fp[theta]/(f), theta = the root adjoined last. Derived from the generic tower only
+# (powers of theta computed with Ext.mul, linear algebra mod p), multiplication by Kronecker substitution (one big
+# integer product). Used where the generic path is too slow (long exponentiations, Frobenius); the generic Ext
+# stays the oracle of record and both are cross-checked in self_test() and by Flat.check().
+
+def _mat_inv_mod(M, p):
+    n = len(M)
+    A = [list(r) + [1 if i == j else 0 for j in range(n)] for i, r in enumerate(M)]
+    for c in range(n):
+        piv = next((r for r in range(c, n) if A[r][c] % p), None)
+        if piv is None:
+            raise ValueError("theta does not generate the field")
+        A[c], A[piv] = A[piv], A[c]
+        iv = pow(A[c][c], -1, p)
+        A[c] = [x * iv % p for x in A[c]]
+        for r in range(n):
+            if r != c and A[r][c]:
+                f = A[r][c]
+                A[r] = [(x - f * y) % p for x, y in zip(A[r], A[c])]
+    return [r[n:] for r in A]
+
+
+class Flat:
+    """Elements are lists of N = [F:Fp] integers: the coefficients of 1, theta, ..., theta^(N-1)."""
+
+    def __init__(self, F):
+        self.F, self.N, self.p = F, F.deg, F.p
+        N, p = self.N, self.p
+        theta = art(F)
+        pw = [F.one]
+        for _ in range(N):
+            pw.append(F.mul(pw[-1], theta))
+        M = [F.flatten(x) for x in pw[:N]]                 # tower vector = c . M
+        Mi = _mat_inv_mod(M, p)                            # c = tower vector . Mi
+        self._M = [[(k, v) for k, v in enumerate(row) if v] for row in M]
+        self._Mi = [[(k, v) for k, v in enumerate(row) if v] for row in Mi]
+        top = F.flatten(pw[N])
+        f = [0] * N
+        for t, x in enumerate(top):
+            if x:
+                for k, v in self._Mi[t]:
+                    f[k] = (f[k] + x * v) % p
+        self.f = [(d, v) for d, v in enumerate(f) if v]    # theta^N = sum v theta^d
+        self.SB = (2 * p.bit_length() + N.bit_length() + 8) // 8 + 1
+        self.one = [1] + [0] * (N - 1)
+        self._frob = {}
+
+    # -- conversions
+    def from_tower(self, a):
+        v = self.F.flatten(a)
+        c = [0] * self.N
+        for t, x in enumerate(v):
+            if x:
+                for k, m in self._Mi[t]:
+                    c[k] += x * m
+        return [x % self.p for x in c]
+
+    def to_tower(self, c):
+        v = [0] * self.N
+        for k, x in enumerate(c):
+            if x:
+                for t, m in self._M[k]:
+                    v[t] += x * m
+        return self.F.unflatten([x % self.p for x in v])
+
+    # -- arithmetic
+    def mul(self, a, b):
+        N, SB, p = self.N, self.SB, self.p
+        A = int.from_bytes(b"".join(x.to_bytes(SB, "little") for x in a), "little")
+        B = A if b is a else int.from_bytes(b"".join(x.to_bytes(SB, "little") for x in b), "little")
+        raw = (A * B).to_bytes(2 * N * SB, "little")
+        c = [int.from_bytes(raw[k * SB:(k + 1) * SB], "little") for k in range(2 * N - 1)]
+        f = self.f
+        for k in range(2 * N - 2, N - 1, -1):
+            ck = c[k] % p
+            if ck:
+                for d, v in f:
+                    c[k - N + d] += v * ck
+        return [x % p for x in c[:N]]
+
+    def pow(self, a, e):
+        if e < 0:
+            a = self.from_tower(self.F.inv(self.to_tower(a)))
+            e = -e
+        if e == 0:
+            return list(self.one)
+        # fixed 4-bit windows
+        tab = [None, a]
+        a2 = self.mul(a, a)
+        for _ in range(7):
+            tab.append(self.mul(tab[-1], a2))                # odd powers a^1, a^3, ..., a^15 at index (k+1)//2
+        r = None
+        i = e.bit_length() - 1
+        while i >= 0:
+            if not (e >> i) & 1:
+                r = self.mul(r, r)
+                i -= 1
+                continue
+            j = max(i - 3, 0)
+            while not (e >> j) & 1:
+                j += 1
+            w = (e >> j) & ((1 << (i - j + 1)) - 1)
+            if r is None:
+                r = tab[(w + 1) // 2]
+            else:
+                for _ in range(i - j + 1):
+                    r = self.mul(r, r)
+                r = self.mul(r, tab[(w + 1) // 2])
+            i = j - 1
+        return r
+
+    def frob_rows(self, i):
+        """rows k -> coefficients of (theta^k)^(p^i): Frobenius is Fp-linear, so a^(p^i) = sum a_k (theta^(p^i))^k.
+        theta^(p^i) itself is obtained by exponentiation (never from constants)."""
+        i %= self.N
+        if i not in self._frob:
+            if i == 0:
+                rows = [[(k, 1)] for k in range(self.N)]
+            else:
+                prev = self.frob_rows(i - 1)
+                tp = [0] * self.N
+                for k, v in prev[1] if self.N > 1 else []:
+                    tp[k] = v
+                tp = self.pow(tp, self.p)                    # theta^(p^i) = (theta^(p^(i-1)))^p
+                rows, cur = [], list(self.one)
+                for k in range(self.N):
+                    rows.append([(d, v) for d, v in enumerate(cur) if v])
+                    cur = self.mul(cur, tp)
+            self._frob[i] = rows
+        return self._frob[i]
+
+    def frob(self, a, i=1):
+        rows = self.frob_rows(i)
+        c = [0] * self.N
+        for k, x in enumerate(a):
+            if x:
+                for d, v in rows[k]:
+                    c[d] += x * v
+        return [x % self.p for x in c]
+
+    def check(self, samples, e=(1 << 40) + 12345):
+        """cross-check against the generic path on the given tower elements; raises AssertionError"""
+        F = self.F
+        for a in samples:
+            for b in samples:
+                assert F.eq(self.to_tower(self.mul(self.from_tower(a), self.from_tower(b))), F.mul(a, b)), "flat mul"
+            assert F.eq(self.to_tower(self.from_tower(a)), a), "flat round trip"
+            assert F.eq(self.to_tower(self.pow(self.from_tower(a), e)), F.pow(a, e)), "flat pow"
+            assert F.eq(self.to_tower(self.pow(self.from_tower(a), -3)), F.pow(a, -3)), "flat negative pow"
+
+
+def sample_elements(F, seed, n=2):
+    """deterministic dense elements (hash-derived), for self-checks and pools"""
+    import hashlib
+    out = []
+    for j in range(n):
+        v = []
+        for k in range(F.deg):
+            h = hashlib.sha512(("%s/%d/%d/%d" % (seed, F.deg, j, k)).encode()).digest()
+            v.append(int.from_bytes(h + hashlib.sha512(h).digest(), "little") % F.p)
+        out.append(F.unflatten(v))
+    return out
+
+
 def self_test():
     # Fp2 over p = 7 mod 8... use the BLS12-381 prime with i^2 = -1 and E = 1 + i (standard tower)
     p = 0x1A0111EA397FE69A4B1BA7B6434BACD764774B84F38512BF6730D2A0F6B0F6241EABFFFEB153FFFFB9FEFFFFFFFFAAAB
@@ -226,3 +416,48 @@ def self_test():
     b = (3, 1, 4)
     if F3.irreducible():
         assert F3.eq(F3.mul(b, F3.inv(b)), F3.one)
+    # norm-based square test agrees with Euler's criterion; generic sqrt agrees
+    for a in [(3, 5), (7, 1), (2, 0), (0, 9), (p - 1, 0)]:
+        assert F2.is_square_norm(a) == F2.is_square(a)
+    # small-prime towers: every level cross-checked between the generic path, the flat path and plain exponentiation
+    # q = 1000003 = 3 mod 8, = 1 mod 3 : i^2 = -1, E = 1 + i
+    for (q, qnr, E) in ((1000003, -1, (1, 1)), (1000033, -5, (0, 1))):
+        Tq = build_tower(q, qnr, None, E)
+        for d in (2, 4, 6, 8, 12):
+            F = Tq[d]
+            if not all(Tq[k].irreducible() for k in Tq if k > 1 and d % k == 0 and _in_chain(Tq, k, d)):
+                continue
+            fl = Flat(F)
+            xs = sample_elements(F, "st%d" % q, 2)
+            fl.check(xs)
+            a = xs[0]
+            assert F.eq(fl.to_tower(fl.frob(fl.from_tower(a), 1)), F.pow(a, q)), "flat frobenius"
+            assert F.eq(fl.to_tower(fl.frob(fl.from_tower(a), 3)), F.pow(a, q ** 3)), "flat frobenius^3"
+            assert F.is_square_norm(a) == F.is_square(a) and F.is_square_norm(F.mul(a, a))
+            if d == 12:
+                # the cyclotomic subgroup: easy part lands in it
+                c = fl.pow(fl.from_tower(a), (q ** 6 - 1) * (q ** 2 + 1))
+                assert fl.pow(c, q ** 4 - q ** 2 + 1) == fl.one
+    # cubic branch over a small prime = 1 mod 9: j^3 = 2 (non-cube), v^3 = j
+    q3 = next(q for q in range(1000, 5000) if q % 18 == 1 and all(q % r for r in range(2, 70))
+              and pow(2, (q - 1) // 3, q) != 1 and pow(2, (q - 1) // 2, q) != 1)
+    T3 = build_tower(q3, None, 2, None, (0, 1, 0))
+    for d in (3, 9, 18):
+        F = T3[d]
+        if not F.irreducible():
+            break
+        fl = Flat(F)
+        xs = sample_elements(F, "st3", 2)
+        fl.check(xs)
+        assert F.eq(fl.to_tower(fl.frob(fl.from_tower(xs[0]), 2)), F.pow(xs[0], q3 ** 2))
+        assert F.is_square_norm(xs[0]) == F.is_square(xs[0])
+
+
+def _in_chain(T, k, d):
+    """is T[k] a subfield in the construction chain of T[d]?"""
+    F = T[d]
+    while isinstance(F, Ext):
+        if F is T[k]:
+            return True
+        F = F.K
+    return False
